@@ -2,6 +2,7 @@ import VerifModel.Base.XR
 import VerifModel.Base.Tr
 import VerifModel.Base.Vec
 import VerifModel.Gen.Det
+import VerifModel.Model.Corrcoef
 /-
   Model of metric.ObsFcstBased.compute_from_obs_fcst: drop every pair with a
   missing member, NaN when nothing is left, otherwise the metric's formula
@@ -23,16 +24,7 @@ def detScore (T : Tr) (name : String) (agg : Vec → XR) (obs fcst : Vec) : Opti
   (Gen.Det.eval T name agg [] []).map fun _ =>
     computeFromObsFcst (fun o f => (Gen.Det.eval T name agg o f).getD .nan) obs fcst
 
-/-- Pearson correlation as `np.corrcoef(obs, fcst)[1, 0]` computes it
-(cov / sqrt(var_o) / sqrt(var_f), clipped to [-1, 1]), with Corr's guards -/
-def corrCore (T : Tr) (obs fcst : Vec) : XR :=
-  let mo := Vec.mean obs
-  let mf := Vec.mean fcst
-  let cov := Vec.sum (Vec.mul (Vec.subS obs mo) (Vec.subS fcst mf))
-  let vo := Vec.sum (Vec.npow (Vec.subS obs mo) 2)
-  let vf := Vec.sum (Vec.npow (Vec.subS fcst mf) 2)
-  let r := cov / T.sqrt vo / T.sqrt vf
-  if XR.lt (.fin 1) r then .fin 1 else if XR.lt r (.fin (-1)) then .fin (-1) else r
+-- `corrCore` (np.corrcoef(obs, fcst)[1, 0]) lives in Model/Corrcoef.lean: it is a primitive of the generated Gen/Det.lean
 
 def corr (T : Tr) (obs fcst : Vec) : XR :=
   if obs.length ≤ 1 then .nan
